@@ -354,15 +354,15 @@ def model_outcome(t, sc):
 
 
 def warning_kind(w):
-    """The model is compared on what a warning / error is about and the numbers in it, not on its wording."""
-    nums = [int(x) for x in re.findall(r'[0-9]+', w)]
+    """The model is compared on what a warning / error is about, not on its wording or on which line / record number it
+    quotes (the property fixes neither; the numbers are still compared between schedules by the schedule oracle)."""
     low = w.lower()
     if 'bom' in low or 'byte order mark' in low:
         return ['bom']
     if 'quot' in low:
-        return ['quoting'] + nums
+        return ['quoting']
     if 'number of fields' in low or 'consistent' in low:
-        return ['field_count'] + nums
+        return ['field_count']
     return ['other', w]
 
 
